@@ -244,7 +244,9 @@ CHECKS = {
         "needs_bins": [],
         "technique": "property-based testing (rapid): (A) generated accepted programs run at enforcement level 'error' with arbitrary conforming stage outputs, every delivered argument validated by an independent validator; (B) certainly-ill-typed single-point mutants must be rejected with an error located in the mutated call",
         "level_text": ("A: the C01 program generator (weighted to composed conversions) x stage outputs with nulls at any depth, driven through the real Pipestance at "
-                       "EnforceError: no failure, every _args value validates against its parameter type under harness/refsem.Valid. B: ~1e5 mutants per run (wrong base type, "
+                       "EnforceError: no failure, every _args value validates against its parameter type under harness/refsem.Valid; plus a hand-structured family of programs with a "
+                       "map call inside a map-called pipeline (arrays of arrays, typed maps of arrays, arrays of typed maps; int, float and string elements; merged results "
+                       "consumed on both levels), for which only the invocation is judged: what compiles must resolve its call graph. B: ~1e5 mutants per run (wrong base type, "
                        "array depth +-1, array vs map, unknown / missing parameter, missing / extra struct field, inconsistent split collections, reference to a missing output "
                        "or field, the unnamed output of a stage bound through the legacy 'x = CALL' shorthand to a parameter it cannot convert to, the output of a map call "
                        "bound one dimension short), with the calls of a pipeline written in dependency order or in any other order; each must give a compile error whose text "
@@ -255,9 +257,10 @@ CHECKS = {
         "assumptions": _SEM_ASSUME,
         "units": [
             U("props/run", "TestC07Accept", (450, 8), (8000, 10)),
+            U("props/run", "TestC07AcceptNested", (1500, 2), (30000, 4)),
             U("props/lang", "TestC07Reject", (12000, 6), (150000, 6)),
         ],
-        "floors": {"quick": {"accept-run": 2000, "reject": 50000, "mut:split-mismatch:length": 500, "mut:wrong-literal:struct-missing-field": 300,
+        "floors": {"quick": {"accept-run": 2000, "accept-nested": 2000, "reject": 50000, "mut:split-mismatch:length": 500, "mut:wrong-literal:struct-missing-field": 300,
                              "mut:mapped-output-depth:array": 1000, "mut:wrong-default-shorthand:float-for-int": 100}},
     },
     "C08": {
